@@ -21,7 +21,7 @@
 //   fp.rt <T> <w> <bits>                         text of a float/double and what it parses back to: OK <units> <OK bits|OOR|INV>
 //   fp.parse <T> <w> <units>                     Convert::To<T>(basic_string_view<C>) for T = f32 | f64
 //   sweepfp <T> <lo> <hi> <step>                 bit patterns lo, lo+step, .. < hi: text parses back bit-identically, glibc strtof/strtod
-//                                                reads the same value from it, no decimal with one digit less does: FPSWEEP <count> <bad> <first bad>
+//                                                reads the same value from it, no decimal that round-trips can be written with fewer characters: FPSWEEP <count> <bad> <first bad>
 // Answers: OK <v> | OOR | INV | OTHER ;  LOADED <t> | NOTLOADED <t> | EXC <code> <t> ;  H <hash> <count> <nontrivial>
 #include "common.h"
 #include "bitserializer/bit_serializer.h"
@@ -212,19 +212,31 @@ static bool decimal_parts(const std::string& txt, std::string& digits, long& e10
 	while (!digits.empty() && digits.back() == '0') digits.pop_back();
 	return true;
 }
-// is there a decimal with one significant digit less that reads back as x?
-template <class T> static bool shorter_exists(const std::string& digits, long e10, bool neg, T x) {
-	if (digits.size() <= 1) return false;
-	std::string d = digits.substr(0, digits.size() - 1);
-	for (int up = 0; up < 2; ++up) {
-		std::string c = d; long e = e10;
-		if (up) {
-			int k = (int)c.size() - 1;
-			while (k >= 0 && c[k] == '9') { c[k] = '0'; --k; }
-			if (k >= 0) ++c[k]; else { c.insert(c.begin(), '1'); ++e; }
+// fewest characters needed to write D * 10^k (D has nd digits, no trailing zero) in printf %f or %e style
+static long min_chars(long nd, long k) {
+	long fixed = k >= 0 ? nd + k : (k > -nd ? nd + 1 : 2 - k);
+	long E = k + nd - 1, aE = E < 0 ? -E : E;
+	long ed = aE >= 100 ? 3 : 2;
+	long sci = (nd == 1 ? 1 : nd + 1) + 2 + ed;
+	return fixed < sci ? fixed : sci;
+}
+// [charconv.to.chars]: "the smallest number of characters such that ... from_chars recovers value exactly".
+// Is there a decimal with fewer significant digits that reads back as x AND can be written with fewer characters?
+template <class T> static bool fewer_chars_exists(const std::string& digits, long e10, bool neg, T x, long textlen) {
+	for (size_t n = 1; n < digits.size(); ++n) {
+		std::string d = digits.substr(0, n);
+		for (int up = 0; up < 2; ++up) {
+			std::string c = d; long e = e10;
+			if (up) {
+				int k = (int)c.size() - 1;
+				while (k >= 0 && c[k] == '9') { c[k] = '0'; --k; }
+				if (k >= 0) ++c[k]; else { c.insert(c.begin(), '1'); ++e; }
+			}
+			std::string t = std::string(neg ? "-" : "") + "0." + c + "e" + std::to_string(e);
+			if (!same_bits(strto<T>(t.c_str()), x)) continue;
+			while (c.size() > 1 && c.back() == '0') c.pop_back();
+			if (min_chars((long)c.size(), e - (long)c.size()) < textlen) return true;
 		}
-		std::string t = std::string(neg ? "-" : "") + "0." + c + "e" + std::to_string(e);
-		if (same_bits(strto<T>(t.c_str()), x)) return true;
 	}
 	return false;
 }
@@ -239,7 +251,9 @@ template <class T> static std::string fp_check(T x) {
 	if (!same_bits(strto<T>(txt.c_str()), x)) return "strtod-reads-another-value";
 	std::string digits; long e10;
 	if (!decimal_parts(txt, digits, e10)) return "unexpected-text-form";
-	if (shorter_exists<T>(digits, e10, txt[0] == '-', x)) return "not-shortest";
+	if (digits.empty()) return "";
+	bool neg = txt[0] == '-';
+	if (fewer_chars_exists<T>(digits, e10, neg, x, (long)txt.size() - (neg ? 1 : 0))) return "not-shortest";
 	return "";
 }
 template <class T> static T fp_from_pattern(U b) {
